@@ -12,8 +12,14 @@ from fedjax.core import tree_util
 from fedjax.aggregators import aggregator
 
 
-def trees_for(n, seed):
+def trees_for(n, seed, mixed=False):
   rng = np.random.RandomState(seed)
+  if mixed:
+    # the same tree structure with different leaf dtypes per client, narrowest first (int32 / float16, then float32)
+    dts = [(np.int32, np.float16), (np.float32, np.float32), (np.int32, np.float32), (np.float32, np.float16)]
+    return [{'a': jnp.asarray((rng.randn(3) * 4).astype(dts[i % 4][0])),
+             'b': {'c': jnp.asarray((rng.randn(2, 2) * 300).astype(dts[i % 4][1])),
+                   'd': jnp.asarray(rng.randint(-3, 3, size=()).astype(np.float32))}} for i in range(n)]
   return [{'a': jnp.asarray(rng.randn(3).astype(np.float32)),
            'b': {'c': jnp.asarray(rng.randn(2, 2).astype(np.float32)),
                  'd': jnp.asarray(rng.randint(-3, 3, size=()).astype(np.float32))}} for _ in range(n)]
@@ -21,7 +27,7 @@ def trees_for(n, seed):
 
 def check_tree(inp):
   n, weights, seed = inp['n'], inp['weights'], inp.get('seed', 0)
-  trees = trees_for(n, seed)
+  trees = trees_for(n, seed, inp.get('mixed', False))
   keep = [jax.tree_util.tree_map(lambda x: np.array(x), t) for t in trees]
   W = float(sum(weights))
   leaves = lambda t: jax.tree_util.tree_leaves(t)
@@ -77,6 +83,8 @@ def check_tree(inp):
 
 
 def sweep_tree(tier, seed):
+  for ws in ([1.0, 1.0], [1.0, 3.0], [2.0, 1.0, 1.0], [1.0, 1.0, 1.0, 1.0]):
+    yield dict(n=len(ws), weights=ws, seed=seed, mixed=True, clips=[])
   for n in (1, 2, 4):
     for ws in itertools.product((0.0, 0.25, 1.0, 3.0), repeat=n):
       yield dict(n=n, weights=list(ws), seed=seed)
